@@ -216,9 +216,28 @@ fn run_case(rep: &mut Report, journal: &mut Journal, case_seed: u64, nsteps: usi
                     let others: Vec<usize> = gleam_files.iter().copied().filter(|g| *g != fi && ws.files[*g].pkg == ws.files[fi].pkg).collect();
                     if let Some(&oj) = others.get(r.below(others.len().max(1))) {
                         if let Some(m) = module_of(&ws.files[oj].path) {
-                            let name = *r.pick(&["a", "b", "c", "f", "g", "x", "y"]);
-                            ws.files[fi].text = format!("import {m}.{{{name}}}\n{}", ws.files[fi].text);
+                            // the imported name: a public function the sibling really has (so
+                            // that a call through it is an inference edge), or any short name
+                            let publics: Vec<String> = ws.files[oj].text.lines().filter_map(|l| l.strip_prefix("pub fn ")).filter_map(|l| l.split('(').next()).map(|n| n.trim().to_string()).filter(|n| !n.is_empty()).collect();
+                            let name = if !publics.is_empty() && r.chance(2, 3) { publics[r.below(publics.len())].clone() } else { r.pick(&["a", "b", "c", "f", "g", "x", "y"]).to_string() };
+                            let mut head = format!("import {m}.{{{name}}}\n");
                             kind = "unqualified-import-of-a-sibling-added";
+                            // a second import under the SAME qualifier (the later one shadows the
+                            // accessor; the unqualified name of the first stays in scope)
+                            let thirds: Vec<usize> = others.iter().copied().filter(|g| *g != oj).collect();
+                            if !thirds.is_empty() && r.chance(1, 3) {
+                                if let Some(m2) = module_of(&ws.files[thirds[r.below(thirds.len())]].path) {
+                                    let q = m.rsplit('/').next().unwrap_or(&m).to_string();
+                                    head.push_str(&format!("import {m2} as {q}\n"));
+                                    kind = "unqualified-import-of-a-sibling-added+same-qualifier-import";
+                                }
+                            }
+                            let mut t = format!("{head}{}", ws.files[fi].text);
+                            if r.chance(1, 2) {
+                                // ... and used: a function of this module now calls into the sibling
+                                t.push_str(&format!("\npub fn via_{name}_{step}(q) {{ {name}(q) }}\n"));
+                            }
+                            ws.files[fi].text = t;
                         }
                     }
                 }
